@@ -131,7 +131,10 @@ def wf_table(rng, sep, transposed=None, kinds=None, n_row=None):
                 if rng.random() < 0.2:
                     vals.append(pd.NaT)
                 else:
-                    vals.append(pd.Timestamp(datetime.datetime(rng.randint(1900, 2200), rng.randint(1, 12), rng.randint(1, 28),
+                    # microsecond timestamps cover years 1..9999 (pandas 3 keeps them at [us]); a tenth of the
+                    # values sit at / beyond the limits of other resolutions and epochs
+                    year = rng.choice(YEAR_EDGES) if rng.random() < 0.1 else rng.randint(1900, 2200)
+                    vals.append(pd.Timestamp(datetime.datetime(year, rng.randint(1, 12), rng.randint(1, 28),
                                                                rng.randint(0, 23), rng.randint(0, 59), rng.randint(0, 59),
                                                                rng.choice([0, 0, 1, 999999, 123000]))))
             elif k == "int":
@@ -180,6 +183,10 @@ def wf_table(rng, sep, transposed=None, kinds=None, n_row=None):
     if any(c in sep_chars_of_render(t) for c in bad):
         return wf_table(rng, sep, transposed, kinds, n_row)   # a numeral / timestamp contains the separator: not admissible
     return t, kinds
+
+
+YEAR_EDGES = [1, 2, 99, 100, 999, 1000, 1582, 1583, 1676, 1677, 1678, 1899, 1900, 1969, 1970, 2037, 2038, 2039, 2261, 2262,
+              2263, 2500, 3000, 9998, 9999]
 
 
 def sep_chars_of_render(t):
